@@ -23,7 +23,7 @@ for _p in ("C02", "C04", "C05", "C07", "C09"):
 RULE["C02"] = RULE["C01"].replace("autograd returned", "autograd's forward mode returned")
 RULE["C04"] = "Same catalogue (real and complex data); a case is non-trivial iff both make_vjp and make_jvp returned for it; judged by the exact adjoint identity <conj g, J v> = <conj vjp(g), v> (tolerance 1e-10 relative to the sum of absolute products) and linearity of both maps; no numerical differentiation involved. distinct = distinct signatures."
 RULE["C05"] = "Same catalogue (real, complex, reduced-precision and kind/broadcast mixes); non-trivial iff a VJP or JVP result was returned and its structural descriptor (container nesting, shape, real/complex, dtype for float64/complex128) was compared with that of the argument (VJP) or the output (JVP). distinct = distinct signatures."
-RULE["C07"] = "Catalogue at order 2 (real configurations plus those that really involve complex data; two-operand configurations also with both operands differentiated jointly = mixed second derivatives): phi(x)=<w,f(x)>, and for a third of the configurations (all of linalg) also the weighted squared residual 0.5*sum a|f(x)-f(x0)|^2 whose cotangent is exactly zero at x0 yet traced (judged only where one-sided derivatives of the gradient agree); Hessian-vector products by rev-over-rev, fwd-over-rev, rev-over-fwd and v'Hv by fwd-over-fwd compared with each other, with a Richardson FD of autograd's first-order gradient and a raw-NumPy second difference; symmetry <u,Hv>=<v,Hu>. Non-trivial iff at least two mode combinations returned and the FD reference was self-consistent. distinct = distinct signatures."
+RULE["C07"] = "Catalogue at order 2 (real configurations plus those that really involve complex data; two-operand configurations also with both operands differentiated jointly = mixed second derivatives, including kind-mixed real/complex operand pairs; a jointly differentiated configuration whose mixed modes return while rev-over-rev raises is a violation): phi(x)=<w,f(x)>, and for a third of the configurations (all of linalg) also the weighted squared residual 0.5*sum a|f(x)-f(x0)|^2 whose cotangent is exactly zero at x0 yet traced (judged only where one-sided derivatives of the gradient agree); Hessian-vector products by rev-over-rev, fwd-over-rev, rev-over-fwd and v'Hv by fwd-over-fwd compared with each other, with a Richardson FD of autograd's first-order gradient and a raw-NumPy second difference; symmetry <u,Hv>=<v,Hu>. Non-trivial iff at least two mode combinations returned and the FD reference was self-consistent. distinct = distinct signatures."
 RULE["C09"] = "Catalogue restricted to calls NumPy accepts with complex data: every real/complex assignment of the arguments, complex-typed data on the real axis (zero imaginary parts) for the unary / linalg / fft functions, complex bases in the left half plane for power; reverse result compared with conj(J_R^T conj g) and forward result with J_R v where J_R is the realified Jacobian from the FD oracle; J_R v additionally obtained by reverse mode applied to the cotangent -> VJP map at the zero cotangent (the make_jvp_reversemode / make_ggnvp path). Non-trivial as for C01. distinct = distinct signatures."
 ASSUMPTIONS = {
     p: [
@@ -786,12 +786,19 @@ def eval_order2(case_dec, rng):
     if "g" not in res:
         return Outcome("not_judged", "raised:" + errs["g"].split(":")[0])
     cj = conj_tree
-    attempt("rr_v", lambda: make_vjp(lambda x: inner_x(cj(v), cj(grad_phi(x))), x0)[0](1.0))
-    attempt("rr_u", lambda: make_vjp(lambda x: inner_x(cj(u), cj(grad_phi(x))), x0)[0](1.0))
+    # (round 9: the traced gradient is paired as it is -- Re(v g) is the realified pairing; the former conj_tree() on it
+    # was an identity on a single traced array and raised inside the harness on a traced tuple, so rev-over-rev
+    # never ran for jointly differentiated operands)
+    attempt("rr_v", lambda: make_vjp(lambda x: inner_x(cj(v), grad_phi(x)), x0)[0](1.0))
+    attempt("rr_u", lambda: make_vjp(lambda x: inner_x(cj(u), grad_phi(x)), x0)[0](1.0))
     attempt("fr_v", lambda: make_jvp(grad_phi, x0)(v)[1])
     attempt("rf_v", lambda: make_vjp(lambda x: make_jvp(phi, x)(v)[1], x0)[0](1.0))
     attempt("ff_vv", lambda: make_jvp(lambda x: make_jvp(phi, x)(v)[1], x0)(v)[1])
     got = [k for k in ("rr_v", "fr_v", "rf_v", "ff_vv") if k in res]
+    if isinstance(x0, tuple) and "rr_v" in errs and "fr_v" in res and "rf_v" in res and not errs["rr_v"].startswith("NotImplementedError"):
+        # round 9: jointly differentiated operands whose mixed second derivative exists in both mixed modes
+        # but RAISES in reverse-over-reverse (e.g. a cotangent of the wrong kind met an accumulator)
+        return Outcome("violation", symptom="exception:rev_over_rev_only", detail="rev-over-rev raised %s while fwd-over-rev and rev-over-fwd returned" % errs["rr_v"], extra={"modes": got, "errors": errs})
     extra = {"modes": got, "errors": errs}
     if not got:
         return Outcome("not_judged", "unsupported_combination", extra=extra)
@@ -1010,6 +1017,9 @@ def make_cases(pid, tier, seed):
         elif mode == "order2":
             # real catalogue plus the configurations that really involve complex data (gauge-free selections)
             cs = list(catalogue.all_cases(rng, cx=False)) + [c for c in catalogue.all_cases(rng, cx=True) if _has_complex(c) and not c.get("gauge")]
+            # round 9: kind-mixed two-operand configurations (a real next to a complex operand): with both
+            # operands differentiated jointly the MIXED second derivative has to come back in each operand's own kind
+            cs += [c for c in extra_struct_cases(rng) if "kindmix" in (c.get("tags") or []) and c["form"] == "function" and c.get("argnum") == 0 and len(c["args"]) >= 2]
         elif mode == "cplx":
             # plus the kind-mixed configurations (real next to complex operands / list pieces): the convention
             # decides what a real argument receives from a complex cotangent and vice versa
